@@ -37,9 +37,12 @@ def fs(*xs):
 
 
 class Kinds(object):
-    def __init__(self, prog, param_table=None):
+    def __init__(self, prog, param_table=None, return_table=None):
         self.p = prog
         self.param_table = param_table or {}
+        if return_table is None:
+            from .tables import RETURN_KINDS as return_table
+        self.return_table = return_table
         self.field_kinds = {}
         self.ret_kinds = {}
         self.param_kinds = {}
@@ -47,7 +50,13 @@ class Kinds(object):
         self.local_imports = {}
         self._getter_fields = {}
         self.fmt_modules = None
+        self._solving = True
         self.solve()
+        self._solving = False
+
+    def _bot(self):
+        """no kind known: bottom while the fixpoint is being computed, unknown afterwards"""
+        return set() if self._solving else set([UNKNOWN])
 
     # -------------------------------------------------------------- class helpers
     def class_by_kind(self, k):
@@ -83,7 +92,7 @@ class Kinds(object):
     def solve(self):
         funcs = self.p.all_functions()
         for f in funcs:
-            self.ret_kinds[f.qualname] = set()
+            self.ret_kinds[f.qualname] = _Frozen(self.return_table[f.short]) if f.short in self.return_table else set()
             for prm in f.params + f.kwonly + ([f.vararg] if f.vararg else []) + ([f.kwarg] if f.kwarg else []):
                 self.param_kinds[(f.qualname, prm)] = set(self.param_table.get((f.short, prm), ()))
         kind_cls = {"odML": "BaseDocument", "section": "BaseSection", "property": "BaseProperty"}
@@ -122,42 +131,120 @@ class Kinds(object):
             env.setdefault(f.vararg, set()).add("tuple")
         if f.kwarg:
             env.setdefault(f.kwarg, set()).add("dict")
-        for n in walk_no_nested(f.node):
-            if isinstance(n, ast.Assign):
-                ks = self.ek(n.value, f, env)
-                for t in n.targets:
-                    self._bind(t, ks, n.value, f, env)
-            elif isinstance(n, ast.AnnAssign) and n.value is not None:
-                self._bind(n.target, self.ek(n.value, f, env), n.value, f, env)
-            elif isinstance(n, ast.AugAssign):
-                if isinstance(n.target, ast.Name):
-                    env.setdefault(n.target.id, set()).update(self.ek(n.value, f, env))
-            elif isinstance(n, (ast.For, ast.comprehension)):
-                self._bind(n.target, self.elem_kinds(n.iter, f, env), None, f, env)
-            elif isinstance(n, ast.With):
-                for item in n.items:
-                    if item.optional_vars is not None:
-                        self._bind(item.optional_vars, self.ek(item.context_expr, f, env), None, f, env)
-            elif isinstance(n, ast.ExceptHandler) and n.name:
-                env.setdefault(n.name, set()).add("exc")
-            elif isinstance(n, ast.Return) and n.value is not None:
-                self.ret_kinds[f.qualname] |= self.ek(n.value, f, env)
-            elif isinstance(n, ast.Return):
-                self.ret_kinds[f.qualname].add("None")
-            elif isinstance(n, (ast.Yield, ast.YieldFrom)):
-                self.ret_kinds[f.qualname].add("generator")
-                if isinstance(n, ast.Yield) and n.value is not None:
-                    self.ret_kinds.setdefault(f.qualname + "#yield", set()).update(self.ek(n.value, f, env))
-                if isinstance(n, ast.YieldFrom):
-                    self.ret_kinds.setdefault(f.qualname + "#yield", set()).update(self.elem_kinds(n.value, f, env))
-            elif isinstance(n, ast.Call):
-                self._propagate_args(n, f, env)
+        self._visit_block(f.node.body, f, env, env)
         # isinstance narrowing feeds parameter kinds of public API (flow-insensitive union)
         for n in walk_no_nested(f.node):
             if isinstance(n, ast.Call) and isinstance(n.func, ast.Name) and n.func.id == "isinstance" and len(n.args) == 2 \
                     and isinstance(n.args[0], ast.Name) and n.args[0].id in f.params:
+                if (f.short, n.args[0].id) in self.param_table:
+                    continue
                 for k in self._class_names_of(n.args[1], f):
                     env.setdefault(n.args[0].id, set()).add(k)
+
+    def _visit_block(self, stmts, f, env, view):
+        """walk statements; `view` is env overlaid with isinstance narrowings valid in this block."""
+        for st in stmts:
+            if isinstance(st, (ast.FunctionDef, ast.AsyncFunctionDef, ast.ClassDef)):
+                continue
+            if isinstance(st, ast.If):
+                self._visit_exprs([st.test], f, env, view)
+                tview, fview = self._narrow_views(st.test, f, env, view)
+                self._visit_block(st.body, f, env, tview)
+                self._visit_block(st.orelse, f, env, fview)
+                continue
+            if isinstance(st, (ast.For, ast.AsyncFor)):
+                self._visit_exprs([st.iter], f, env, view)
+                self._bind(st.target, self.elem_kinds(st.iter, f, view), None, f, env, view)
+                self._visit_block(st.body, f, env, view)
+                self._visit_block(st.orelse, f, env, view)
+                continue
+            if isinstance(st, ast.While):
+                self._visit_exprs([st.test], f, env, view)
+                self._visit_block(st.body, f, env, view)
+                self._visit_block(st.orelse, f, env, view)
+                continue
+            if isinstance(st, ast.Try):
+                self._visit_block(st.body, f, env, view)
+                for h in st.handlers:
+                    if h.name:
+                        env.setdefault(h.name, set()).add("exc")
+                    self._visit_block(h.body, f, env, view)
+                self._visit_block(st.orelse, f, env, view)
+                self._visit_block(st.finalbody, f, env, view)
+                continue
+            if isinstance(st, (ast.With, ast.AsyncWith)):
+                for item in st.items:
+                    self._visit_exprs([item.context_expr], f, env, view)
+                    if item.optional_vars is not None:
+                        self._bind(item.optional_vars, self.ek(item.context_expr, f, view), None, f, env, view)
+                self._visit_block(st.body, f, env, view)
+                continue
+            if isinstance(st, ast.Assign):
+                self._visit_exprs([st.value], f, env, view)
+                ks = self.ek(st.value, f, view)
+                for t in st.targets:
+                    self._bind(t, ks, st.value, f, env, view)
+            elif isinstance(st, ast.AnnAssign) and st.value is not None:
+                self._visit_exprs([st.value], f, env, view)
+                self._bind(st.target, self.ek(st.value, f, view), st.value, f, env, view)
+            elif isinstance(st, ast.AugAssign):
+                self._visit_exprs([st.value], f, env, view)
+                if isinstance(st.target, ast.Name):
+                    cur = env.setdefault(st.target.id, set())
+                    if not cur or cur <= set(["None", UNKNOWN]):
+                        cur.update(self.ek(st.value, f, view))     # x += v keeps the kind of x (list, str, int)
+            elif isinstance(st, ast.Return):
+                if st.value is not None:
+                    self._visit_exprs([st.value], f, env, view)
+                    self.ret_kinds[f.qualname] |= self.ek(st.value, f, view)
+                else:
+                    self.ret_kinds[f.qualname].add("None")
+            else:
+                self._visit_exprs([c for c in ast.iter_child_nodes(st) if isinstance(c, ast.expr)], f, env, view)
+
+    def _visit_exprs(self, exprs, f, env, view):
+        for e in exprs:
+            for n in ast.walk(e):
+                if isinstance(n, ast.Call):
+                    self._propagate_args(n, f, view)
+                elif isinstance(n, ast.comprehension):
+                    self._bind(n.target, self.elem_kinds(n.iter, f, view), None, f, env, view)
+                elif isinstance(n, ast.Yield):
+                    self.ret_kinds[f.qualname].add("generator")
+                    if n.value is not None:
+                        self.ret_kinds.setdefault(f.qualname + "#yield", set()).update(self.ek(n.value, f, view))
+                elif isinstance(n, ast.YieldFrom):
+                    self.ret_kinds[f.qualname].add("generator")
+                    self.ret_kinds.setdefault(f.qualname + "#yield", set()).update(self.elem_kinds(n.value, f, view))
+                elif isinstance(n, ast.NamedExpr) and isinstance(n.target, ast.Name):
+                    env.setdefault(n.target.id, set()).update(self.ek(n.value, f, view))
+
+    def _narrow_views(self, test, f, env, view):
+        tview, fview = view, view
+        tn, fn = {}, {}
+        for sub, pol in _isinstance_atoms(test, True):
+            if isinstance(sub.args[0], ast.Name):
+                names = self._class_names_of(sub.args[1], f)
+                cur = set(view.get(sub.args[0].id, ()))
+                if names:
+                    if pol:
+                        tn[sub.args[0].id] = (cur & names) if (cur & names) else set(names)
+                    else:
+                        tn[sub.args[0].id] = cur - names
+        for sub, pol in _isinstance_atoms(test, False):
+            if isinstance(sub.args[0], ast.Name):
+                names = self._class_names_of(sub.args[1], f)
+                cur = set(view.get(sub.args[0].id, ()))
+                if names:
+                    if pol:
+                        fn[sub.args[0].id] = (cur & names) if (cur & names) else set(names)
+                    else:
+                        fn[sub.args[0].id] = cur - names
+        if tn:
+            tview = _View(view, tn)
+        if fn:
+            fview = _View(view, fn)
+        return tview, fview
 
     def _class_names_of(self, expr, f):
         out = set()
@@ -174,25 +261,26 @@ class Kinds(object):
                             out.discard(cl.name)
         return out
 
-    def _bind(self, target, kinds, value, f, env):
+    def _bind(self, target, kinds, value, f, env, view=None):
+        view = view if view is not None else env
         if isinstance(target, ast.Name):
             env.setdefault(target.id, set()).update(kinds)
         elif isinstance(target, (ast.Tuple, ast.List)):
             for e in target.elts:
-                self._bind(e, set([UNKNOWN]), None, f, env)
+                self._bind(e, set([UNKNOWN]), None, f, env, view)
         elif isinstance(target, ast.Attribute):
-            for k in self.ek(target.value, f, env):
+            for k in self.ek(target.value, f, view):
                 cls = self.class_by_kind(k)
                 if cls is None:
                     continue
                 if cls.has_prop(target.attr):
                     s = cls.lookup_prop(target.attr, "setter")
-                    if s is not None and len(s.params) > 1:
+                    if s is not None and len(s.params) > 1 and (s.short, s.params[1]) not in self.param_table:
                         self.param_kinds.setdefault((s.qualname, s.params[1]), set()).update(kinds)
                 else:
                     self.field_kinds.setdefault((cls.name, target.attr), set()).update(kinds)
         elif isinstance(target, ast.Starred):
-            self._bind(target.value, set(["list"]), None, f, env)
+            self._bind(target.value, set(["list"]), None, f, env, view)
 
     def _propagate_args(self, call, f, env):
         for tgt in self.resolve_call(call, f, env):
@@ -204,10 +292,10 @@ class Kinds(object):
             for i, a in enumerate(call.args):
                 if isinstance(a, ast.Starred):
                     break
-                if i < len(params):
+                if i < len(params) and (tgt.short, params[i]) not in self.param_table:
                     self.param_kinds.setdefault((tgt.qualname, params[i]), set()).update(self.ek(a, f, env))
             for kwd in call.keywords:
-                if kwd.arg is not None and kwd.arg in tgt.params + tgt.kwonly:
+                if kwd.arg is not None and kwd.arg in tgt.params + tgt.kwonly and (tgt.short, kwd.arg) not in self.param_table:
                     self.param_kinds.setdefault((tgt.qualname, kwd.arg), set()).update(self.ek(kwd.value, f, env))
 
     def _is_unbound_call(self, call, tgt, f, env):
@@ -278,12 +366,12 @@ class Kinds(object):
                 if isinstance(t, str):
                     if cls.has_prop(t):
                         return self.attr_kinds(k, t, f)
-                    return self.field(cls, t) or set([UNKNOWN])
+                    return self.field(cls, t) or self._bot()
                 if isinstance(t, tuple) and t[0] == "copy":
                     return set(["list"])
                 if isinstance(t, tuple) and t[0] == "const":
                     return set(["None"]) if t[1] is None else set([type(t[1]).__name__])
-                return set(self.ret_kinds.get(g.qualname, ())) or set([UNKNOWN])
+                return set(self.ret_kinds.get(g.qualname, ())) or self._bot()
             m = cls.lookup_method(attr)
             if m is not None:
                 return set(["bound:" + m.qualname + "@" + k])
@@ -298,13 +386,17 @@ class Kinds(object):
                 return set(["listmethod:%s@%s" % (attr, k)])
             if "dict" in [str(b) for b in cls.external_bases()]:
                 return set(["dictmethod:%s@%s" % (attr, k)])
-            return set([UNKNOWN])
+            if any(not isinstance(b, ClassInfo) and str(b) not in ("object",) for b in cls.mro):
+                return set([UNKNOWN])     # attribute of an external base class
+            return set()                  # no such attribute on this repository class: the access would raise
         if k.startswith("ext:"):
             return set(["ext:%s.%s" % (k[4:], attr)])
         if k == "ext":
             return set(["ext"])
         if k == "file":
             return set(["filemethod:" + attr])
+        if k == "None":
+            return set()      # attribute access on None raises; it contributes no value
         if k == "str" and attr in STR_METHODS_RET:
             return set(["strmethod:" + attr])
         if k == "list":
@@ -335,7 +427,7 @@ class Kinds(object):
                 out = set()
                 for v in vals[-1:]:
                     out |= self.ek(v, None, {}, mod=mod)
-                return out or set([UNKNOWN])
+                return out or self._bot()
         return set([UNKNOWN])
 
     def name_kinds(self, name, f, env, mod=None):
@@ -405,7 +497,7 @@ class Kinds(object):
             out = set()
             for k in self.ek(e.value, f, env, mod):
                 out |= self.attr_kinds(k, e.attr, f)
-            return out or set([UNKNOWN])
+            return out or self._bot()
         if isinstance(e, ast.Subscript):
             out = set()
             for k in self.ek(e.value, f, env, mod):
@@ -420,7 +512,7 @@ class Kinds(object):
                     out.add("str")
                 else:
                     out.add(UNKNOWN)
-            return out or set([UNKNOWN])
+            return out or self._bot()
         if isinstance(e, ast.Call):
             return self.call_kinds(e, f, env, mod)
         if isinstance(e, ast.Starred):
@@ -454,7 +546,7 @@ class Kinds(object):
                     out.add(UNKNOWN)
         if isinstance(it, ast.Call) and isinstance(it.func, ast.Name) and it.func.id in ("list", "sorted", "reversed", "tuple", "iter") and it.args:
             return self.elem_kinds(it.args[0], f, env)
-        return out or set([UNKNOWN])
+        return out or self._bot()
 
     def call_kinds(self, call, f, env, mod=None):
         out = set()
@@ -476,7 +568,7 @@ class Kinds(object):
                 elif fn is not None and fn.name == "__init__":
                     out.add("None")
                 else:
-                    out |= self.ret_kinds.get(qn, set()) or set([UNKNOWN])
+                    out |= self.ret_kinds.get(qn, set()) or self._bot()
             elif k.startswith("bound:"):
                 qn, recv = k[6:].split("@")
                 if qn == "odml.format.Format.create" and recv.startswith("fmt:"):
@@ -484,7 +576,7 @@ class Kinds(object):
                 elif qn.endswith(".clone") or qn.endswith(".export_leaf"):
                     out.add(recv) if qn.endswith(".clone") else out.update(["BaseSection", "BaseDocument", "BaseProperty"])
                 else:
-                    out |= self.ret_kinds.get(qn, set()) or set([UNKNOWN])
+                    out |= self.ret_kinds.get(qn, set()) or self._bot()
             elif k.startswith("builtin:"):
                 b = k[8:]
                 if b == "super":
@@ -534,7 +626,7 @@ class Kinds(object):
                         out |= self.ret_kinds.get(tgt.qualname, set())
             if not out:
                 out.add(UNKNOWN)
-        return out or set([UNKNOWN])
+        return out or self._bot()
 
     # -------------------------------------------------------------- call resolution
     def narrowed(self, expr, f, env, conds):
@@ -779,3 +871,36 @@ def _isinstance_atoms(test, pol):
             for v in test.values:
                 out += _isinstance_atoms(v, False)
     return out
+
+
+class _View(dict):
+    """env overlaid with narrowed kinds for some names (read through, never written)."""
+    def __init__(self, base, over):
+        dict.__init__(self)
+        self.base = base
+        self.over = over
+
+    def __contains__(self, k):
+        return k in self.over or k in self.base
+
+    def __getitem__(self, k):
+        if k in self.over:
+            return self.over[k]
+        return self.base[k]
+
+    def get(self, k, default=None):
+        if k in self.over:
+            return self.over[k]
+        return self.base.get(k, default)
+
+
+class _Frozen(set):
+    """a reviewed return kind set: updates by the solver are ignored."""
+    def update(self, *a):
+        pass
+
+    def add(self, x):
+        pass
+
+    def __ior__(self, other):
+        return self
